@@ -45,12 +45,14 @@ def satisfiesG (grow : Nat → Nat → Nat) (e : Bytes) (allowed : List Bytes) :
       (anyG (fun part => isCompatibleG part sd.1) ex).bind fun v =>   -- the verdict loop, matching with pointers (part 7)
       .ok (.ok v)
 
-/-- `ExtractLicenses` -/
-def extractFullG (e : Bytes) : Out (Option (List Bytes)) :=
+/-- `ExtractLicenses`: parse, `expand(true)` on the heap, `flatten`, one dereference per node, `removeDuplicateStrings` -/
+def extractFullG (grow : Nat → Nat → Nat) (e : Bytes) : Out (Option (List Bytes)) :=
   (parseG e).bind fun r =>
   match r with
   | none => .ok none
-  | some n => (extractG n).bind fun l => .ok (some l)
+  | some n =>
+    (expandG grow n).bind fun ex =>
+    (mapM' renderG ex.flatten).bind fun ls => .ok (some (dedup [] ls))
 
 /-- the loop of `ValidateLicenses`: the entries that do not parse, in order -/
 def invalidG : List Bytes → Out (List Bytes)
